@@ -107,7 +107,9 @@ def main():
         for p, shs in c["params"].items():
             args[p] = build(shape_parse(shs), req["args"][p], aslist=p in c.get("list_params", ()))
         out["input"] = {p: (v.tolist() if isinstance(v, np.ndarray) else repr(v)) for p, v in args.items()}
-        failed, _ = speceval.check_clauses(c.get("requires", []), args)
+        # contract clauses may name what the function's own module names (enum classes, import aliases such as `metrics`)
+        modns = {k_: v_ for k_, v_ in vars(importlib.import_module(mod)).items() if not k_.startswith("__")}
+        failed, _ = speceval.check_clauses(c.get("requires", []), dict(modns, **args))
         if failed:
             out["outcome"] = "counter-model is not a valid input after conversion to doubles (requires fails: %s)" % failed[0]
         else:
@@ -117,7 +119,7 @@ def main():
             try:
                 res = f(**args)
                 signal.alarm(0)
-                env = dict(args)
+                env = dict(modns, **args)
                 env["result"] = res
                 failed, skipped = speceval.check_clauses(c.get("ensures", []), env, old)
                 for p_ in args:
